@@ -53,10 +53,20 @@ Rules interpreted:
   that point - the caller must give no verdict from there on; with the default
   it stops the pass there (callers whose callbacks never pause never get there).
 
+* (optional) ``chain(d, target)`` = ``d.chainDeferred(target)``, documented as shorthand for
+  ``d.addCallbacks(target.callback, target.errback)``: an entry of d's list that offers d's current result to the
+  target (an ordinary ``fire`` of the target issued at that moment) and continues d with ``None``, or with the
+  AlreadyCalled failure if the target refused it.  It creates no waiting relation: ``cancel`` never follows it.
+
 Results are abstract: ("V", payload) | ("F", tag) | ("D", name-of-deferred).
 Callback behaviours are small tuples interpreted by ``behave``:
   ("value", x) | ("raise", tag, ...) | ("failure", tag) | ("echo",) | ("deferred", name)
-A callback spec is (cid, behaviour) or (cid, behaviour, actions) with
+A callback spec is (cid, behaviour), (cid, behaviour, actions) or (cid, behaviour,
+actions, extras): ``extras`` = (positional arguments, sorted keyword items) registered
+together with THAT side of the pair (``addCallback(f, *a, **kw)``, ``callbackArgs`` /
+``callbackKeywords`` / ``errbackArgs`` / ``errbackKeywords`` of ``addCallbacks``); the
+callable is called as ``f(result, *a, **kw)`` and the log entry of the call then is
+(deferred name, cid, input, extras) - without extras it stays (name, cid, input).
 actions = (("pause", name) | ("unpause", name) | ("fire", name, result) |
 ("add", name, cbspec|None, ebspec|None), ...); an ``unpause`` action is only
 carried out while the program holds a pause of its own on the target
@@ -116,7 +126,7 @@ class MD:
 
 
 class Interp:
-    """spec = (cid, behaviour).  ``log`` receives (deferred name, cid, input)."""
+    """spec = (cid, behaviour[, actions[, extras]]).  ``log`` receives (deferred name, cid, input[, extras])."""
 
     def __init__(self, midpass_undetermined=False):
         self.ds = {}
@@ -154,6 +164,15 @@ class Interp:
         d.cbs.append(("pair", cbspec, ebspec))
         if d.called:
             self._run(d)
+
+    def chain(self, d, target):
+        """(optional) ``d.chainDeferred(target)``: documented as "merely a shorthand" for
+        ``d.addCallbacks(target.callback, target.errback)`` - whatever result d has when processing reaches the entry is
+        offered to the target like any other result (accepted / the one ignored late result / AlreadyCalled raised inside
+        d's processing, which makes that failure d's current result); when accepted or ignored d continues with None.
+        The entry has no cid (``pending`` shows (None, None)) and logs nothing."""
+        spec = (None, ("feed", target.name))
+        self.add(d, spec, spec)
 
     def cancel(self, d):
         if not d.called:
@@ -201,9 +220,28 @@ class Interp:
             spec = e[2] if d.result[0] == "F" else e[1]
             if spec is None:
                 continue  # pass-through side
+            if spec[1][0] == "feed":
+                # (optional) an entry added by ``chain``: hands the current result to the target as the ordinary
+                # ``fire`` operation issued at that moment; nothing is logged (the entry is not a recorder)
+                t = self.ds[spec[1][1]]
+                self.notes.append(("feed", d.name, t.name, t.called, t.suppress))
+                d.running = True
+                try:
+                    self.fire(t, d.result)
+                    d.result = NONE
+                except AlreadyCalled:
+                    d.result = ("F", "AlreadyCalledError")
+                finally:
+                    d.running = False
+                continue
             cid, beh = spec[0], spec[1]
             arg = d.result
-            self.log.append((d.name, cid, arg))
+            extras = spec[3] if len(spec) > 3 else None
+            if extras and (extras[0] or extras[1]):
+                # extra arguments registered with this side of the pair: part of the input of the call
+                self.log.append((d.name, cid, arg, extras))
+            else:
+                self.log.append((d.name, cid, arg))
             if len(spec) > 2 and spec[2]:
                 d.running = True
                 try:
